@@ -1,6 +1,6 @@
 (* Pf_Hist.v — an invariant of fault-free, API-call-atomic histories of any number of threads, and from it the
    whole-history theorems of C03 and C17: the monitors hold of the model for EVERY such history. *)
-From HL Require Import Base Model Shape Algo Api OpsLemmas Lemmas ShapeLemmas ApiLemmas QuietLemmas Pf_Calls Check Monitors Pf_C06.
+From HL Require Import Base Model Shape Algo Api OpsLemmas Lemmas ShapeLemmas ApiLemmas QuietLemmas Pf_Calls Check Monitors Pf_C06 Pf_C13.
 
 (* ---------------------------------------------------------------- who holds what, per raw state *)
 Definition wf_rawst (s : rawst) : Prop := writer s <> None -> readers s = [].
@@ -236,3 +236,914 @@ Lemma thread_holds_false t nl w :
 Proof.
   intros H. unfold thread_holds, snapshot_holds. rewrite existsb_map_false; [reflexivity|]. intros l _. apply H.
 Qed.
+
+(* ---------------------------------------------------------------- what one call does to the hold table *)
+Definition raw_after (sc : scen) (t : tid) (lc : tlocal) (o : apiop) (rc : rcode) (f : St) : St :=
+  match o with
+  | AAcquire c m (FGuard | FTry) =>
+      match rc with ROk | RPoisoned => acq_all t m (kleaves (shape_of sc c)) f | _ => f end
+  | AGuardDrop | AGuardUnlock | APanic =>
+      match guard lc with Some g => rel_all t (g_mode g) (gleaves (g_items g)) f | None => f end
+  | _ => f
+  end.
+
+Definition got_guard (o : apiop) (rc : rcode) : bool :=
+  match o, rc with
+  | AAcquire _ _ (FGuard | FTry), (ROk | RPoisoned) => true
+  | _, _ => false
+  end.
+
+Lemma shape_of_coll sc c s : coll (sc_env sc) c = Some s -> shape_of sc c = s.
+Proof. unfold coll, shape_of. cbn [sc_env e_colls]. now intros ->. Qed.
+
+Lemma run_poison_result_any t s w :
+  exists n, run nopw t (poison_result s) w = (ODone (VNat n), w) /\ (n = 0 \/ n = 2).
+Proof.
+  unfold poison_result. destruct (root_poison s); [|exists 0; split; [reflexivity|now left]].
+  cbn [run do_op]. destruct (vtrue (VBool (w_psn w p))); [exists 2|exists 0]; (split; [reflexivity|tauto]).
+Qed.
+
+(* the non-acquiring calls are made of non-blocking operations only *)
+Lemma nonacq_nb e lc o p : is_nonacq o = true -> api_prog e lc o = Some p -> ops_in nbop p.
+Proof.
+  destruct o; cbn [is_nonacq]; try discriminate; intros _; cbn [api_prog].
+  - intros H. inversion H. constructor; [exact I|]. intros v. constructor.
+  - destruct (haskey lc); [|discriminate]. intros H. inversion H. apply ops_in_op_. exact I.
+  - destruct (haskey lc); [|discriminate]. intros H. inversion H. constructor.
+  - destruct (guard lc) as [g|]; [|discriminate]. intros H. inversion H. cbn [cs_prog].
+    destruct (nth_leaf (g_items g) pos) as [[k l]|]; [apply ops_in_op_; exact I|constructor].
+  - destruct (coll e c) as [[| | | | | |q s']|]; try discriminate. intros H. inversion H.
+    constructor; [exact I|]. intros v. constructor.
+  - destruct (coll e c) as [[| | | | | |q s']|]; try discriminate. intros H. inversion H. apply ops_in_op_. exact I.
+  - destruct (coll e c) as [s|]; [|discriminate]. intros H. inversion H. apply fmt_list_nb.
+Qed.
+
+Lemma quiet_set_keyf w t b : quiet w -> quiet (set_keyf w t b).
+Proof. intros [A [B C]]. repeat split; assumption. Qed.
+Lemma quiet_set_psn w p b : quiet w -> quiet (set_psn w p b).
+Proof. intros [A [B C]]. repeat split; assumption. Qed.
+
+Definition guard_ok (t : tid) (lc : tlocal) (w : world) : Prop :=
+  forall m items, guard lc = Some (mkg m items) ->
+    NoDup (locks_of (gleaves items)) /\ held_all t m (gleaves items) (w_raw w) = true.
+
+Definition coll_ok (sc : scen) (o : apiop) : Prop :=
+  forall c m f, o = AAcquire c m f -> forall s, coll (sc_env sc) c = Some s -> acquirable s = true /\ NoDup (leaves s).
+
+Record call_out (sc : scen) (t : tid) (lc : tlocal) (o : apiop) (w : world) (out : outcome) (w' : world) : Prop := {
+  cq_stop : stop_code (snd (api_fin (sc_env sc) lc o out)) = true -> is_acquire o = true;
+  cq_quiet : stop_code (snd (api_fin (sc_env sc) lc o out)) = false -> quiet w';
+  cq_raw : stop_code (snd (api_fin (sc_env sc) lc o out)) = false ->
+           forall x, w_raw w' x = raw_after sc t lc o (snd (api_fin (sc_env sc) lc o out)) (w_raw w) x;
+  cq_can : forall c m f, o = AAcquire c m f -> got_guard o (snd (api_fin (sc_env sc) lc o out)) = true ->
+           can_all m (kleaves (shape_of sc c)) (w_raw w) = true
+}.
+
+(* a blocked acquisition blocks the whole scoped call *)
+Lemma run_scoped_rest_blocked t m s a lent body acq w w1 :
+  run nopw t acq w = (OBlocked, w1) ->
+  run nopw t (scoped_rest m s a lent body acq) w = (OBlocked, w1).
+Proof.
+  intros R. unfold scoped_rest. destruct (root_poison s); unfold with_key, pthen; cbn [run]; rewrite R; reflexivity.
+Qed.
+
+Section CallAcq.
+  Variables (sc : scen) (t : tid) (lc : tlocal) (c : nat) (m : mode) (s : shape) (w : world).
+  Hypothesis Q : quiet w.
+  Hypothesis Hf : 2 <= sc_fuel sc.
+  Hypothesis Hc : coll (sc_env sc) c = Some s.
+  Hypothesis Ha : acquirable s = true.
+  Hypothesis ND : NoDup (leaves s).
+  Let e := sc_env sc.
+  Let a := alg_of (e_am e) s.
+
+  Lemma call_acq_guard out w' :
+    run nopw t (with_key true false (raw_lock (e_fuel e) m a ;; see_all (gpoisons (gitems s)) ;; poison_result s)) w = (out, w') ->
+    call_out sc t lc (AAcquire c m FGuard) w out w'.
+  Proof.
+    intros R. pose proof (raw_lock_all_or_wait t m (e_am e) s Ha ND (e_fuel e) w Q Hf) as L.
+    destruct (can_all m (kleaves s) (w_raw w)) eqn:Can.
+    - destruct L as [w1 [R1 E1]].
+      destruct (run_see_all t (gpoisons (gitems s)) w1) as [w2 [R2 E2]].
+      destruct (run_poison_result_any t s w2) as [n [R3 Hn]].
+      assert (Rc : run nopw t (with_key true false (raw_lock (e_fuel e) m a ;; see_all (gpoisons (gitems s)) ;; poison_result s)) w
+                   = (ODone (VNat n), w2)).
+      { apply (run_with_key_done nopw t true false _ w (VNat n) w2).
+        rewrite (run_then_done _ _ _ _ _ VUnit w1) by exact R1.
+        rewrite (run_then_done _ _ _ _ _ _ _ R2). exact R3. }
+      rewrite Rc in R. inversion R; subst out w'. clear R.
+      assert (Fin : snd (api_fin e lc (AAcquire c m FGuard) (ODone (VNat n))) = (if Nat.eqb n 2 then RPoisoned else ROk)).
+      { destruct Hn as [-> | ->]; reflexivity. }
+      constructor; fold e; rewrite Fin.
+      + destruct (Nat.eqb n 2); discriminate.
+      + intros _. eapply eff_quiet; [exact E2|]. eapply eff_quiet; [exact E1|exact Q].
+      + intros _ x. rewrite (eff_raw _ _ _ E2), (eff_raw _ _ _ E1). cbn [raw_after].
+        rewrite (shape_of_coll _ _ _ Hc). destruct (Nat.eqb n 2); reflexivity.
+      + intros c' m' f' Heq _. inversion Heq; subst. rewrite (shape_of_coll _ _ _ Hc). exact Can.
+    - destruct L as [w1 R1].
+      assert (Rc : run nopw t (with_key true false (raw_lock (e_fuel e) m a ;; see_all (gpoisons (gitems s)) ;; poison_result s)) w
+                   = (OBlocked, w1)).
+      { unfold with_key, pthen. cbn [run]. fold a in R1. rewrite R1. reflexivity. }
+      rewrite Rc in R. inversion R; subst out w'. clear R.
+      constructor; cbn [api_fin snd stop_code]; try (intros H; discriminate H); try reflexivity.
+      intros c' m' f' _ H. discriminate H.
+  Qed.
+End CallAcq.
+
+Section CallAcq2.
+  Variables (sc : scen) (t : tid) (lc : tlocal) (c : nat) (m : mode) (s : shape) (w : world).
+  Hypothesis Q : quiet w.
+  Hypothesis Hf : 2 <= sc_fuel sc.
+  Hypothesis Hc : coll (sc_env sc) c = Some s.
+  Hypothesis Ha : acquirable s = true.
+  Hypothesis ND : NoDup (leaves s).
+  Let e := sc_env sc.
+  Let a := alg_of (e_am e) s.
+
+  Lemma call_acq_try out w' :
+    run nopw t (with_key true false
+                  (Bind (raw_try m a)
+                        (fun v => if vtrue v then see_all (gpoisons (gitems s)) ;; poison_result s else Ret (VNat 1)))) w = (out, w') ->
+    call_out sc t lc (AAcquire c m FTry) w out w'.
+  Proof.
+    intros R. destruct (run_raw_try t m (e_am e) s w Q Ha ND) as [w1 [R1 E1]]. fold a in R1.
+    destruct (can_all m (kleaves s) (w_raw w)) eqn:Can.
+    - destruct (run_see_all t (gpoisons (gitems s)) w1) as [w2 [R2 E2]].
+      destruct (run_poison_result_any t s w2) as [n [R3 Hn]].
+      assert (Rc : run nopw t (with_key true false
+                  (Bind (raw_try m a)
+                        (fun v => if vtrue v then see_all (gpoisons (gitems s)) ;; poison_result s else Ret (VNat 1)))) w
+                   = (ODone (VNat n), w2)).
+      { apply (run_with_key_done nopw t true false _ w (VNat n) w2).
+        rewrite (run_bind_done _ _ _ _ _ _ _ R1). cbn [vtrue].
+        rewrite (run_then_done _ _ _ _ _ _ _ R2). exact R3. }
+      rewrite Rc in R. inversion R; subst out w'. clear R.
+      assert (Fin : snd (api_fin e lc (AAcquire c m FTry) (ODone (VNat n))) = (if Nat.eqb n 2 then RPoisoned else ROk)).
+      { destruct Hn as [-> | ->]; reflexivity. }
+      constructor; fold e; rewrite Fin.
+      + destruct (Nat.eqb n 2); discriminate.
+      + intros _. eapply eff_quiet; [exact E2|]. eapply eff_quiet; [exact E1|exact Q].
+      + intros _ x. rewrite (eff_raw _ _ _ E2), (eff_raw _ _ _ E1). cbn [raw_after].
+        rewrite (shape_of_coll _ _ _ Hc). destruct (Nat.eqb n 2); reflexivity.
+      + intros c' m' f' Heq _. inversion Heq; subst. rewrite (shape_of_coll _ _ _ Hc). exact Can.
+    - assert (Rc : run nopw t (with_key true false
+                  (Bind (raw_try m a)
+                        (fun v => if vtrue v then see_all (gpoisons (gitems s)) ;; poison_result s else Ret (VNat 1)))) w
+                   = (ODone (VNat 1), w1)).
+      { apply (run_with_key_done nopw t true false _ w (VNat 1) w1).
+        rewrite (run_bind_done _ _ _ _ _ _ _ R1). reflexivity. }
+      rewrite Rc in R. inversion R; subst out w'. clear R.
+      constructor; cbn [api_fin snd stop_code].
+      + intros H; discriminate H.
+      + intros _. eapply eff_quiet; [exact E1|exact Q].
+      + intros _ x. rewrite (eff_raw _ _ _ E1). reflexivity.
+      + intros c' m' f' _ H. discriminate H.
+  Qed.
+
+  Lemma call_acq_scoped lent body out w' :
+    run nopw t (scoped_rest m s a lent body (raw_lock (e_fuel e) m a)) w = (out, w') ->
+    call_out sc t lc (AAcquire c m (FScoped lent body)) w out w'.
+  Proof.
+    intros R. destruct (can_all m (kleaves s) (w_raw w)) eqn:Can.
+    - destruct (scoped_call_quiet t m (e_am e) s Ha ND (e_fuel e) lent body w Q Hf Can) as [w2 [R2 [E2 _]]].
+      fold a in R2. rewrite R2 in R. inversion R; subst out w'. clear R.
+      assert (Fin : stop_code (snd (api_fin e lc (AAcquire c m (FScoped lent body))
+                                   (if existsb is_cpanic body then OPanic else ODone (VNat 0)))) = false).
+      { destruct (existsb is_cpanic body); reflexivity. }
+      constructor; fold e.
+      + rewrite Fin. discriminate.
+      + intros _. eapply effp_quiet; [exact E2|exact Q].
+      + intros _ x. rewrite (ep_raw _ _ _ _ E2). reflexivity.
+      + intros c' m' f' _ H. destruct (existsb is_cpanic body); discriminate H.
+    - pose proof (raw_lock_all_or_wait t m (e_am e) s Ha ND (e_fuel e) w Q Hf) as L. rewrite Can in L.
+      destruct L as [w1 R1]. fold a in R1.
+      rewrite (run_scoped_rest_blocked _ _ _ _ _ _ _ _ _ R1) in R. inversion R; subst out w'. clear R.
+      constructor; cbn [api_fin snd stop_code]; try (intros H; discriminate H); try reflexivity.
+      intros c' m' f' _ H. discriminate H.
+  Qed.
+
+  Lemma call_acq_scoped_try lent body out w' :
+    run nopw t (Bind (with_key (negb lent) false (raw_try m a))
+                     (fun v => if vtrue v then scoped_rest m s a lent body skip else Ret (VNat 1))) w = (out, w') ->
+    call_out sc t lc (AAcquire c m (FScopedTry lent body)) w out w'.
+  Proof.
+    intros R. destruct (run_raw_try t m (e_am e) s w Q Ha ND) as [w1 [R1 E1]]. fold a in R1.
+    pose proof (run_with_key_done nopw t (negb lent) false _ _ _ _ R1) as Rk. cbn iota in Rk.
+    rewrite (run_bind_done _ _ _ _ _ _ _ Rk) in R. cbn [vtrue] in R.
+    assert (Q1 : quiet w1) by (eapply eff_quiet; [exact E1|exact Q]).
+    destruct (can_all m (kleaves s) (w_raw w)) eqn:Can.
+    - assert (Ep : effp w1 w1 (acq_all t m (kleaves s) (w_raw w)) (w_psn w1)).
+      { constructor; auto. - apply (eff_raw _ _ _ E1). - exists []. split; [reflexivity|constructor]. }
+      destruct (run_scoped_rest_quiet t m (e_am e) s lent body Ha ND skip w1 VUnit w1 (w_raw w) Q1 eq_refl Ep
+                  (fun x => eq_refl) Can) as [w2 [R2 [E2 _]]].
+      fold a in R2. rewrite R2 in R. inversion R; subst out w'. clear R.
+      assert (Fin : stop_code (snd (api_fin e lc (AAcquire c m (FScopedTry lent body))
+                                   (if existsb is_cpanic body then OPanic else ODone (VNat 0)))) = false).
+      { destruct (existsb is_cpanic body); reflexivity. }
+      constructor; fold e.
+      + rewrite Fin. discriminate.
+      + intros _. eapply effp_quiet; [exact E2|exact Q1].
+      + intros _ x. rewrite (ep_raw _ _ _ _ E2). reflexivity.
+      + intros c' m' f' _ H. destruct (existsb is_cpanic body); discriminate H.
+    - cbn [run] in R. inversion R; subst out w'. clear R.
+      constructor; cbn [api_fin snd stop_code].
+      + intros H; discriminate H.
+      + intros _. exact Q1.
+      + intros _ x. rewrite (eff_raw _ _ _ E1). reflexivity.
+      + intros c' m' f' _ H. discriminate H.
+  Qed.
+End CallAcq2.
+
+Lemma call_out_same sc t lc o w out w' :
+  (forall x, w_raw w' x = w_raw w x) -> quiet w' ->
+  stop_code (snd (api_fin (sc_env sc) lc o out)) = false ->
+  (forall rc, raw_after sc t lc o rc (w_raw w) = w_raw w) ->
+  (forall rc, got_guard o rc = false) ->
+  call_out sc t lc o w out w'.
+Proof.
+  intros Hr Hq Hs Ha Hg. constructor.
+  - rewrite Hs. discriminate.
+  - intros _. exact Hq.
+  - intros _ x. rewrite Ha. apply Hr.
+  - intros c m f _ H. rewrite Hg in H. discriminate H.
+Qed.
+
+Lemma call_Q sc t lc o p w out w' :
+  quiet w -> 2 <= sc_fuel sc -> guard_ok t lc w -> coll_ok sc o ->
+  api_prog (sc_env sc) lc o = Some p -> run nopw t p w = (out, w') ->
+  call_out sc t lc o w out w'.
+Proof.
+  intros Q Hf Hg Hco Hp R. destruct o; cbn [api_prog] in Hp.
+  - (* AKeyGet *) injection Hp as Hp; subst p. cbn in R. inversion R; subst out w'.
+    apply call_out_same; auto; try (now apply quiet_set_keyf).
+  - (* AKeyDrop *) destruct (haskey lc); [|discriminate]. injection Hp as Hp; subst p. cbn in R. inversion R; subst out w'.
+    apply call_out_same; auto; try (now apply quiet_set_keyf).
+  - (* AKeyForget *) destruct (haskey lc); [|discriminate]. injection Hp as Hp; subst p. cbn in R. inversion R; subst out w'.
+    apply call_out_same; auto.
+  - (* AAcquire *)
+    destruct (coll (sc_env sc) c) as [s|] eqn:Hc; [|discriminate]. destruct (haskey lc); [|discriminate].
+    destruct (Hco c m f eq_refl s Hc) as [Ha ND].
+    destruct f; injection Hp as Hp; subst p.
+    + eapply call_acq_guard; eauto.
+    + eapply call_acq_try; eauto.
+    + eapply call_acq_scoped; eauto.
+    + eapply call_acq_scoped_try; eauto.
+  - (* AGuardDrop *)
+    destruct (guard lc) as [[gm items]|] eqn:G; [|discriminate]. injection Hp as Hp; subst p. cbn [g_mode g_items] in R.
+    destruct (Hg gm items G) as [ND H].
+    destruct (run_drop_items t gm items w Q ND H) as [w1 [R1 E1]].
+    rewrite (run_with_key_done nopw t true true _ _ _ _ R1) in R. inversion R; subst out w'.
+    constructor; cbn [api_fin snd stop_code]; try (intros X; discriminate X).
+    + intros _. apply quiet_set_keyf. eapply eff_quiet; eauto.
+    + intros _ x. cbn [set_keyf w_raw raw_after]. rewrite G. cbn [g_mode g_items]. apply (eff_raw _ _ _ E1).
+    + intros c m f X. discriminate X.
+  - (* AGuardUnlock *)
+    destruct (guard lc) as [[gm items]|] eqn:G; [|discriminate]. injection Hp as Hp; subst p. cbn [g_mode g_items] in R.
+    destruct (Hg gm items G) as [ND H].
+    destruct (run_drop_items t gm items w Q ND H) as [w1 [R1 E1]].
+    rewrite (run_with_key_done nopw t true false _ _ _ _ R1) in R. inversion R; subst out w'.
+    constructor; cbn [api_fin snd stop_code]; try (intros X; discriminate X).
+    + intros _. eapply eff_quiet; eauto.
+    + intros _ x. cbn [raw_after]. rewrite G. cbn [g_mode g_items]. apply (eff_raw _ _ _ E1).
+    + intros c m f X. discriminate X.
+  - (* AGuardForget *)
+    destruct (guard lc); [|discriminate]. injection Hp as Hp; subst p. cbn in R. inversion R; subst out w'.
+    apply call_out_same; auto.
+  - (* AGuardRead *)
+    destruct (guard lc) as [g|]; [|discriminate]. injection Hp as Hp; subst p.
+    destruct (run_cs_prog t (g_mode g) (g_items g) (CRead pos) w) as [v [w1 [R1 F1]]]. cbn [is_cpanic cs_prog] in R1.
+    rewrite R1 in R. inversion R; subst out w'.
+    apply call_out_same; auto; [apply (fr_raw _ _ F1)|eapply frame_quiet; eauto].
+  - (* AGuardWrite *)
+    destruct (guard lc) as [g|]; [|discriminate]. injection Hp as Hp; subst p.
+    destruct (run_cs_prog t (g_mode g) (g_items g) (CWrite pos) w) as [v [w1 [R1 F1]]]. cbn [is_cpanic cs_prog] in R1.
+    rewrite R1 in R. inversion R; subst out w'.
+    apply call_out_same; auto; [apply (fr_raw _ _ F1)|eapply frame_quiet; eauto].
+  - (* APanic *)
+    destruct (guard lc) as [[gm items]|] eqn:G.
+    + injection Hp as Hp; subst p. cbn [g_mode g_items] in R. destruct (Hg gm items G) as [ND H].
+      destruct (guard_panic_quiet t gm items w Q ND H) as [w1 [R1 E1]].
+      rewrite R1 in R. inversion R; subst out w'.
+      constructor; cbn [api_fin snd stop_code]; try (intros X; discriminate X).
+      * intros _. apply quiet_set_keyf. eapply effp_quiet; eauto.
+      * intros _ x. cbn [set_keyf w_raw raw_after]. rewrite G. cbn [g_mode g_items]. apply (ep_raw _ _ _ _ E1).
+      * intros c m f X. discriminate X.
+    + injection Hp as Hp; subst p.
+      assert (Rr : run nopw t (Bind (with_key false (haskey lc) skip) (fun _ => Throw)) w =
+                   (OPanic, if haskey lc then set_keyf w t false else w)).
+      { unfold with_key, skip. cbn [run]. destruct (haskey lc); reflexivity. }
+      rewrite Rr in R. inversion R; subst out w'.
+      constructor; cbn [api_fin snd stop_code]; try (intros X; discriminate X).
+      * intros _. destruct (haskey lc); [now apply quiet_set_keyf|exact Q].
+      * intros _ x. cbn [raw_after]. rewrite G. destruct (haskey lc); reflexivity.
+      * intros c m f X. discriminate X.
+  - (* AIsPoisoned *)
+    destruct (coll (sc_env sc) c) as [[| | | | | |q s']|]; try discriminate. injection Hp as Hp; subst p.
+    cbn in R. inversion R; subst out w'. apply call_out_same; auto.
+  - (* AClearPoison *)
+    destruct (coll (sc_env sc) c) as [[| | | | | |q s']|]; try discriminate. injection Hp as Hp; subst p.
+    cbn in R. inversion R; subst out w'. apply call_out_same; auto; try (now apply quiet_set_psn).
+  - (* AFmt *)
+    destruct (coll (sc_env sc) c) as [s|]; [|discriminate]. injection Hp as Hp; subst p.
+    destruct (fmt_quiet t s w Q) as [n [w1 [R1 [E1 _]]]]. rewrite R1 in R. inversion R; subst out w'.
+    apply call_out_same; auto; [apply (eff_raw _ _ _ E1)|eapply eff_quiet; eauto].
+Qed.
+
+(* ---------------------------------------------------------------- other threads' holds are not disturbed *)
+Lemma held1_other_acq u t k m k' m' s :
+  can1 k' m' s = true -> held1 u k m s = true -> held1 u k m (acq1 t k' m' s) = true.
+Proof.
+  unfold can1, held1, acq1. destruct s as [wr rd]. destruct (shared k' m'), (shared k m); simpl.
+  - intros _ H. now rewrite H, orb_true_r.
+  - unfold no_writer. simpl. intros C H. unfold writer_is in H. simpl in H. destruct wr; discriminate.
+  - unfold is_free. simpl. intros C H. destruct wr; [discriminate|]. destruct rd; [discriminate H|discriminate C].
+  - unfold is_free, writer_is. simpl. intros C H. destruct wr; discriminate.
+Qed.
+
+Lemma held1_other_rel u t k m k' m' s :
+  u <> t -> wf_rawst s -> held1 t k' m' s = true -> held1 u k m s = true -> held1 u k m (rel1 t k' m' s) = true.
+Proof.
+  unfold held1, rel1, wf_rawst. destruct s as [wr rd]. intros Hu W. simpl in W.
+  destruct (shared k' m'), (shared k m); simpl; intros Ht H.
+  - rewrite memb_count, count_remove1. destruct (Nat.eqb_spec u t); [congruence|]. simpl. rewrite Nat.sub_0_r.
+    now rewrite <- memb_count.
+  - exact H.
+  - unfold writer_is in Ht. simpl in Ht. destruct wr as [x|]; [|discriminate]. rewrite W in H by discriminate. discriminate.
+  - unfold writer_is in *. simpl in *. destruct wr as [x|]; [|discriminate].
+    apply Nat.eqb_eq in Ht, H. congruence.
+Qed.
+
+Lemma held_all_other_acq u t m ls m' ls' f :
+  NoDup (locks_of ls') -> can_all m' ls' f = true -> held_all u m ls f = true ->
+  held_all u m ls (acq_all t m' ls' f) = true.
+Proof.
+  intros ND C H. unfold held_all in *. rewrite forallb_forall in *. intros [k l] Hin. cbn [fst snd].
+  specialize (H (k, l) Hin). cbn [fst snd] in H.
+  destruct (in_dec Nat.eq_dec l (locks_of ls')) as [Hl|Hl].
+  - destruct (in_locks_of _ _ Hl) as [k' Hk']. rewrite (acq_all_in t m' ls' f k' l ND Hk').
+    apply held1_other_acq; [|exact H]. unfold can_all in C. rewrite forallb_forall in C. apply (C (k', l) Hk').
+  - rewrite acq_all_other by exact Hl. exact H.
+Qed.
+
+Lemma held_all_other_rel u t m ls m' ls' f :
+  u <> t -> NoDup (locks_of ls') -> held_all t m' ls' f = true -> (forall x, wf_rawst (f x)) ->
+  held_all u m ls f = true -> held_all u m ls (rel_all t m' ls' f) = true.
+Proof.
+  intros Hu ND Ht W H. unfold held_all in H |- *. rewrite forallb_forall in *. intros [k l] Hin. cbn [fst snd].
+  specialize (H (k, l) Hin). cbn [fst snd] in H.
+  destruct (in_dec Nat.eq_dec l (locks_of ls')) as [Hl|Hl].
+  - destruct (in_locks_of _ _ Hl) as [k' Hk']. rewrite (rel_all_in t m' ls' f k' l ND Hk').
+    apply held1_other_rel; [exact Hu|apply W| |exact H]. eapply held_all_in; eauto.
+  - rewrite rel_all_other by exact Hl. exact H.
+Qed.
+
+(* after taking them, the leaves are held *)
+Lemma held1_acq1 t k m s : held1 t k m (acq1 t k m s) = true.
+Proof. unfold held1, acq1. destruct (shared k m); simpl; [now rewrite Nat.eqb_refl|unfold writer_is; simpl; apply Nat.eqb_refl]. Qed.
+
+Lemma held_all_acq_all t m ls f : NoDup (locks_of ls) -> held_all t m ls (acq_all t m ls f) = true.
+Proof.
+  intros ND. unfold held_all. rewrite forallb_forall. intros [k l] Hin. cbn [fst snd].
+  rewrite (acq_all_in t m ls f k l ND Hin). apply held1_acq1.
+Qed.
+
+(* ---------------------------------------------------------------- the four kinds of transition of a thread *)
+Inductive trans_kind := TK | TA (c : nat) (m : mode) | TR | TF.
+
+Definition classify (o : apiop) (rc : rcode) : trans_kind :=
+  match o with
+  | AAcquire c m (FGuard | FTry) => match rc with ROk | RPoisoned => TA c m | _ => TK end
+  | AGuardDrop | AGuardUnlock | APanic => TR
+  | AGuardForget => TF
+  | _ => TK
+  end.
+
+Lemma raw_after_classify sc t lc o rc f :
+  raw_after sc t lc o rc f =
+  match classify o rc with
+  | TA c m => acq_all t m (kleaves (shape_of sc c)) f
+  | TR => match guard lc with Some g => rel_all t (g_mode g) (gleaves (g_items g)) f | None => f end
+  | _ => f
+  end.
+Proof. destruct o as [| | |c m fl| | | | | | | | |]; try reflexivity. destruct fl, rc; reflexivity. Qed.
+
+Definition trans_spec (e : env) (lc lc' : tlocal) (mt mt' : mthread) (k : trans_kind) : Prop :=
+  match k with
+  | TK => guard lc' = guard lc /\ mt_guard mt' = mt_guard mt /\ mt_leak mt' = mt_leak mt
+  | TA c m => haskey lc = true /\ guard lc = None /\
+              (exists s, coll e c = Some s /\ guard lc' = Some (mkg m (gitems s))) /\
+              mt_guard mt' = Some (c, m) /\ mt_leak mt' = mt_leak mt
+  | TR => guard lc' = None /\ mt_guard mt' = None /\ mt_leak mt' = mt_leak mt
+  | TF => guard lc <> None /\ guard lc' = None /\ mt_guard mt' = None /\
+          mt_leak mt' = match mt_guard mt with Some x => x :: mt_leak mt | None => mt_leak mt end
+  end.
+
+Lemma Rk_key_noguard lc mt : Rk lc mt -> haskey lc = true -> guard lc = None /\ mt_guard mt = None.
+Proof. unfold Rk. intros H Hk. rewrite Hk in H. destruct (guard lc); [contradiction|]. destruct H. now split. Qed.
+
+Lemma Rk_noguard lc mt : Rk lc mt -> guard lc = None -> mt_guard mt = None.
+Proof. unfold Rk. intros H G. rewrite G in H. destruct (haskey lc); destruct H; assumption. Qed.
+
+Lemma trans_classify e lc mt o p out :
+  api_prog e lc o = Some p -> Rk lc mt ->
+  stop_code (snd (api_fin e lc o out)) = false ->
+  trans_spec e lc (fst (api_fin e lc o out)) mt (track mt o (snd (api_fin e lc o out)))
+             (classify o (snd (api_fin e lc o out))).
+Proof.
+  intros Hp HR Hs. destruct o as [| | |c m fl| | | |pos|pos| |c|c|c]; cbn [api_prog] in Hp.
+  - (* AKeyGet *) destruct out as [v| | | |]; cbn in Hs |- *; try discriminate Hs.
+    + destruct (vtrue v); cbn; auto.
+    + auto.
+  - destruct out; cbn in Hs |- *; try discriminate Hs; auto.
+  - destruct out; cbn in Hs |- *; try discriminate Hs; auto.
+  - (* AAcquire *)
+    destruct (coll e c) as [s|] eqn:Hc; [|discriminate]. destruct (haskey lc) eqn:Hk; [|discriminate].
+    destruct (Rk_key_noguard _ _ HR Hk) as [G MG].
+    destruct out as [v| | | |]; try (destruct fl; discriminate Hs).
+    + (* ODone v *)
+      destruct fl as [| |lent body|lent body].
+      * destruct v as [|b|n]; try solve [cbn [api_fin fst snd classify track trans_spec]; rewrite Hc;
+          repeat split; auto; exists s; split; auto].
+        destruct n as [|[|[|n]]]; cbn [api_fin fst snd classify track trans_spec]; rewrite ?Hc;
+          repeat split; auto; try (exists s; split; auto).
+      * destruct v as [|b|n]; try solve [cbn [api_fin fst snd classify track trans_spec]; rewrite Hc;
+          repeat split; auto; exists s; split; auto].
+        destruct n as [|[|[|n]]]; cbn [api_fin fst snd classify track trans_spec]; rewrite ?Hc;
+          repeat split; auto; try (exists s; split; auto).
+      * destruct v as [|b|n]; try solve [destruct lent; cbn; rewrite ?G, ?MG; auto].
+        destruct n as [|[|n]]; destruct lent; cbn; rewrite ?G, ?MG; auto.
+      * destruct v as [|b|n]; try solve [destruct lent; cbn; rewrite ?G, ?MG; auto].
+        destruct n as [|[|n]]; destruct lent; cbn; rewrite ?G, ?MG; auto.
+    + (* OPanic *)
+      destruct fl as [| |lent body|lent body]; try destruct lent; cbn; rewrite ?G, ?MG; auto.
+  - (* AGuardDrop *) destruct out; cbn in Hs |- *; try discriminate Hs; auto.
+  - destruct out; cbn in Hs |- *; try discriminate Hs; auto.
+  - (* AGuardForget *)
+    destruct (guard lc) as [g|] eqn:G; [|discriminate].
+    assert (MG : mt_guard mt <> None).
+    { unfold Rk in HR. rewrite G in HR. destruct (haskey lc); [contradiction|]. apply HR. }
+    destruct (mt_guard mt) as [x|] eqn:E; [|congruence].
+    destruct out; cbn [api_fin fst snd stop_code] in Hs |- *; try discriminate Hs;
+      cbn [classify track trans_spec mt_guard mt_leak]; rewrite E; cbn [mt_guard mt_leak];
+      (split; [rewrite G; discriminate|]); auto.
+  - destruct out; cbn in Hs |- *; try discriminate Hs; auto.
+  - destruct out; cbn in Hs |- *; try discriminate Hs; auto.
+  - (* APanic *) destruct out; cbn in Hs |- *; try discriminate Hs; auto.
+  - destruct out as [v| | | |]; cbn in Hs |- *; try discriminate Hs; auto.
+  - destruct out; cbn in Hs |- *; try discriminate Hs; auto.
+  - destruct out as [v| | | |]; cbn in Hs |- *; try discriminate Hs; auto.
+    destruct v as [| |n]; cbn; auto.
+Qed.
+
+(* ---------------------------------------------------------------- the data part of the invariant and its step *)
+Record dinv (sc : scen) (raw : St) (loc : tid -> tlocal) (ms : tid -> mthread) : Prop := {
+  di_wf : forall l, wf_rawst (raw l);
+  di_cnt : forall t l, real sc t -> count t (readers (raw l)) <= 1;
+  di_guard : forall t m items, guard (loc t) = Some (mkg m items) ->
+      real sc t /\ NoDup (locks_of (gleaves items)) /\ held_all t m (gleaves items) raw = true /\
+      exists c, mt_guard (ms t) = Some (c, m) /\ items = gitems (shape_of sc c);
+  di_holds : forall t l, real sc t -> holds_by t (raw l) = true ->
+      In l (ghold (loc t)) \/ In l (leaked sc (ms t))
+}.
+
+Lemma held_all_ext t m ls f g : (forall x, f x = g x) -> held_all t m ls f = held_all t m ls g.
+Proof. intros H. unfold held_all. apply forallb_ext_in'. intros x _. now rewrite H. Qed.
+
+Definition raw_of_kind (sc : scen) (t : tid) (lc : tlocal) (k : trans_kind) (f : St) : St :=
+  match k with
+  | TA c m => acq_all t m (kleaves (shape_of sc c)) f
+  | TR => match guard lc with Some g => rel_all t (g_mode g) (gleaves (g_items g)) f | None => f end
+  | _ => f
+  end.
+
+Lemma dinv_step sc raw loc ms t lc' mt' k raw' :
+  dinv sc raw loc ms -> real sc t ->
+  trans_spec (sc_env sc) (loc t) lc' (ms t) mt' k ->
+  (forall x, raw' x = raw_of_kind sc t (loc t) k raw x) ->
+  (forall c m, k = TA c m -> can_all m (kleaves (shape_of sc c)) raw = true /\ NoDup (leaves (shape_of sc c))) ->
+  (haskey (loc t) = true -> forall l, holds_by t (raw l) = false) ->
+  dinv sc raw' (upd loc t lc') (upd ms t mt').
+Proof.
+  intros D Rt TS Hraw Hacq Hnone. destruct k as [|c m| |]; cbn [trans_spec raw_of_kind] in TS, Hraw.
+  - (* TK *)
+    destruct TS as [G [MG ML]]. constructor.
+    + intros l. rewrite Hraw. apply (di_wf _ _ _ _ D).
+    + intros u l Ru. rewrite Hraw. now apply (di_cnt _ _ _ _ D).
+    + intros u m items Hg. rewrite (held_all_ext _ _ _ _ _ Hraw).
+      destruct (Nat.eq_dec u t) as [->|Hu].
+      * rewrite upd_same in Hg; rewrite ?upd_same. rewrite G in Hg. rewrite MG. apply (di_guard _ _ _ _ D _ _ _ Hg).
+      * rewrite upd_other in Hg by exact Hu; rewrite ?upd_other by exact Hu. apply (di_guard _ _ _ _ D _ _ _ Hg).
+    + intros u l Ru H. rewrite Hraw in H. destruct (di_holds _ _ _ _ D u l Ru H) as [X|X].
+      * left. destruct (Nat.eq_dec u t) as [->|Hu]; [rewrite upd_same; unfold ghold in *; now rewrite G|now rewrite upd_other].
+      * right. destruct (Nat.eq_dec u t) as [->|Hu]; [rewrite upd_same; unfold leaked in *; now rewrite ML|now rewrite upd_other].
+  - (* TA *)
+    destruct TS as [Hk [G [[s [Hc G']] [MG ML]]]]. destruct (Hacq c m eq_refl) as [Can ND].
+    pose proof (shape_of_coll _ _ _ Hc) as Hs. rewrite Hs in *.
+    assert (NDk : NoDup (locks_of (kleaves s))) by (rewrite <- leaves_kleaves; exact ND).
+    pose proof (Hnone Hk) as Hn.
+    constructor.
+    + intros l. rewrite Hraw. apply wf_acq_all; auto. apply (di_wf _ _ _ _ D).
+    + intros u l Ru. rewrite Hraw. pose proof (count_acq_all u t m (kleaves s) raw l NDk Can) as X.
+      destruct (Nat.eqb_spec u t) as [->|Hu].
+      * rewrite (count_zero_not_holding t _ (Hn l)) in X. destruct (memb l (locks_of (kleaves s))); simpl in X; lia.
+      * simpl in X. pose proof (di_cnt _ _ _ _ D u l Ru). lia.
+    + intros u m' items Hg. rewrite (held_all_ext _ _ _ _ _ Hraw).
+      destruct (Nat.eq_dec u t) as [->|Hu].
+      * rewrite upd_same in Hg; rewrite ?upd_same. rewrite G' in Hg. inversion Hg; subst m' items. rewrite gleaves_gitems.
+        split; [exact Rt|]. split; [exact NDk|]. split; [now apply held_all_acq_all|].
+        exists c. rewrite MG, Hs. now split.
+      * rewrite upd_other in Hg by exact Hu; rewrite ?upd_other by exact Hu.
+        destruct (di_guard _ _ _ _ D _ _ _ Hg) as [Ru [NDu [Hu' Ex]]].
+        split; [exact Ru|]. split; [exact NDu|]. split; [|exact Ex]. now apply held_all_other_acq.
+    + intros u l Ru H. rewrite Hraw, (holds_by_acq_all u t m (kleaves s) raw l NDk Can) in H.
+      destruct (Nat.eq_dec u t) as [->|Hu].
+      * rewrite Nat.eqb_refl, (Hn l), orb_false_r in H. cbn [andb] in H. apply memb_In in H.
+        left. rewrite upd_same. unfold ghold. rewrite G'. cbn [g_items]. now rewrite gleaves_gitems.
+      * destruct (Nat.eqb_spec u t); [congruence|]. cbn [andb orb] in H. rewrite !upd_other by exact Hu.
+        now apply (di_holds _ _ _ _ D).
+  - (* TR *)
+    destruct TS as [G' [MG ML]]. destruct (guard (loc t)) as [[gm items]|] eqn:G; cbn [g_mode g_items] in Hraw.
+    + destruct (di_guard _ _ _ _ D _ _ _ G) as [_ [NDg [Hh Ex]]].
+      constructor.
+      * intros l. rewrite Hraw. apply wf_rel_all; auto. apply (di_wf _ _ _ _ D).
+      * intros u l Ru. rewrite Hraw. pose proof (count_rel_all_le u t gm (gleaves items) raw l NDg).
+        pose proof (di_cnt _ _ _ _ D u l Ru). lia.
+      * intros u m' items' Hg. rewrite (held_all_ext _ _ _ _ _ Hraw).
+        destruct (Nat.eq_dec u t) as [->|Hu]; [rewrite upd_same in Hg; congruence|].
+        rewrite upd_other in Hg by exact Hu; rewrite ?upd_other by exact Hu.
+        destruct (di_guard _ _ _ _ D _ _ _ Hg) as [Ru [NDu [Hu' Ex']]].
+        split; [exact Ru|]. split; [exact NDu|]. split; [|exact Ex'].
+        apply held_all_other_rel; auto. apply (di_wf _ _ _ _ D).
+      * intros u l Ru H. rewrite Hraw in H. destruct (Nat.eq_dec u t) as [->|Hu].
+        -- right. rewrite upd_same. unfold leaked. rewrite ML.
+           destruct (in_dec Nat.eq_dec l (locks_of (gleaves items))) as [Hl|Hl].
+           ++ rewrite (holds_by_rel_all_self t gm (gleaves items) raw l NDg Hh (di_wf _ _ _ _ D)
+                         (fun x => di_cnt _ _ _ _ D t x Rt) Hl) in H. discriminate H.
+           ++ rewrite rel_all_other in H by exact Hl.
+              destruct (di_holds _ _ _ _ D t l Rt H) as [X|X]; [|exact X].
+              unfold ghold in X. rewrite G in X. cbn [g_items] in X. contradiction.
+        -- rewrite (holds_by_rel_all_other u t gm (gleaves items) raw l Hu NDg Hh (di_wf _ _ _ _ D)) in H.
+           rewrite !upd_other by exact Hu. now apply (di_holds _ _ _ _ D).
+    + constructor.
+      * intros l. rewrite Hraw. apply (di_wf _ _ _ _ D).
+      * intros u l Ru. rewrite Hraw. now apply (di_cnt _ _ _ _ D).
+      * intros u m' items' Hg. rewrite (held_all_ext _ _ _ _ _ Hraw).
+        destruct (Nat.eq_dec u t) as [->|Hu]; [rewrite upd_same in Hg; congruence|].
+        rewrite upd_other in Hg by exact Hu; rewrite ?upd_other by exact Hu. apply (di_guard _ _ _ _ D _ _ _ Hg).
+      * intros u l Ru H. rewrite Hraw in H. destruct (di_holds _ _ _ _ D u l Ru H) as [X|X].
+        -- destruct (Nat.eq_dec u t) as [->|Hu]; [unfold ghold in X; rewrite G in X; contradiction|].
+           left. now rewrite upd_other.
+        -- right. destruct (Nat.eq_dec u t) as [->|Hu]; [rewrite upd_same; unfold leaked in *; now rewrite ML|now rewrite upd_other].
+  - (* TF *)
+    destruct TS as [G [G' [MG ML]]]. destruct (guard (loc t)) as [[gm items]|] eqn:Gt; [|congruence].
+    destruct (di_guard _ _ _ _ D _ _ _ Gt) as [_ [NDg [Hh [c [MGt Hitems]]]]].
+    rewrite MGt in ML.
+    constructor.
+    + intros l. rewrite Hraw. apply (di_wf _ _ _ _ D).
+    + intros u l Ru. rewrite Hraw. now apply (di_cnt _ _ _ _ D).
+    + intros u m' items' Hg. rewrite (held_all_ext _ _ _ _ _ Hraw).
+      destruct (Nat.eq_dec u t) as [->|Hu]; [rewrite upd_same in Hg; congruence|].
+      rewrite upd_other in Hg by exact Hu; rewrite ?upd_other by exact Hu. apply (di_guard _ _ _ _ D _ _ _ Hg).
+    + intros u l Ru H. rewrite Hraw in H. destruct (di_holds _ _ _ _ D u l Ru H) as [X|X].
+      * destruct (Nat.eq_dec u t) as [->|Hu]; [|left; now rewrite upd_other].
+        right. rewrite upd_same. unfold leaked. rewrite ML. cbn [flat_map fst]. apply in_or_app. left.
+        unfold ghold in X. rewrite Gt in X. cbn [g_items] in X. rewrite Hitems, gleaves_gitems in X.
+        now rewrite leaves_kleaves.
+      * right. destruct (Nat.eq_dec u t) as [->|Hu]; [|now rewrite upd_other].
+        rewrite upd_same. unfold leaked in *. rewrite ML. cbn [flat_map]. apply in_or_app. now right.
+Qed.
+
+(* ---------------------------------------------------------------- one step of a history *)
+Lemma qinv_dinv sc h ms : qinv sc h ms -> dinv sc (w_raw (h_w h)) (h_loc h) ms.
+Proof. intros Q. constructor; [apply (qi_wf _ _ _ Q)|apply (qi_cnt _ _ _ Q)|apply (qi_guard _ _ _ Q)|apply (qi_holds _ _ _ Q)]. Qed.
+
+Lemma acq_haskey e lc c m f p : api_prog e lc (AAcquire c m f) = Some p -> haskey lc = true.
+Proof. cbn [api_prog]. destruct (coll e c); [|discriminate]. destruct (haskey lc); [reflexivity|discriminate]. Qed.
+
+Lemma nb_evs_bool evs : Forall nb_ev evs -> nonblocking_evs evs = true.
+Proof.
+  intros H. unfold nonblocking_evs. apply forallb_forall. intros e He. rewrite Forall_forall in H. specialize (H e He).
+  destruct e; try reflexivity. simpl in H. now rewrite H.
+Qed.
+
+Lemma nth_snapshot_not_held t nl w l :
+  (forall x, holds_by t (w_raw w x) = false) -> holds_by t (nth l (snapshot_holds nl w) raw_free) = false.
+Proof.
+  intros H. destruct (Nat.lt_ge_cases l nl) as [Hl|Hl].
+  - rewrite nth_snapshot_holds by exact Hl. apply H.
+  - rewrite nth_overflow; [reflexivity|]. unfold snapshot_holds. now rewrite map_length, seq_length.
+Qed.
+
+Lemma nonacq_not_blocked e lc o out :
+  is_nonacq o = true -> snd (api_fin e lc o out) = RBlockedC -> out = OBlocked.
+Proof.
+  destruct o; cbn [is_nonacq]; try discriminate; intros _; destruct out as [v| | | |]; cbn; try discriminate; try reflexivity.
+  destruct v as [| |n]; discriminate.
+Qed.
+
+Lemma wf_hist_coll_ok sc t o : wf_hist sc -> In (t, o) (sc_hist sc) -> coll_ok sc o.
+Proof.
+  intros W Hin c m f -> s Hs. destruct (wh_colls _ W t c m f Hin) as [s' [Hn [Ha ND]]].
+  unfold coll in Hs. cbn [sc_env e_colls] in Hs. rewrite Hn in Hs. inversion Hs; subst s'. now split.
+Qed.
+
+Lemma real_in sc t o : In (t, o) (sc_hist sc) -> real sc t.
+Proof. intros H. unfold real, threads_of. apply in_map_iff. now exists (t, o). Qed.
+
+Lemma qinv_guard_ok sc h ms t : qinv sc h ms -> guard_ok t (h_loc h t) (clear_trace (h_w h)).
+Proof. intros Q m items G. destruct (qi_guard _ _ _ Q t m items G) as [_ [ND [H _]]]. now split. Qed.
+
+Lemma Rk_leaked lc mt : Rk lc mt -> mt_key mt = KLeaked -> haskey lc = false /\ guard lc = None.
+Proof.
+  unfold Rk. intros H K. destruct (haskey lc), (guard lc); try contradiction; destruct H as [H1 H2]; try congruence.
+  now split.
+Qed.
+
+Lemma leak_key_step e lc mt o p out :
+  api_prog e lc o = Some p -> Rk lc mt -> mt_key mt = KLeaked ->
+  (o = AKeyGet -> snd (api_fin e lc o out) = RB false) ->
+  mt_key (track mt o (snd (api_fin e lc o out))) = KLeaked.
+Proof.
+  intros Hp HR K Hget. destruct (Rk_leaked _ _ HR K) as [Hk G].
+  destruct o as [| | |c m fl| | | |pos|pos| |c|c|c]; cbn [api_prog] in Hp; rewrite ?Hk, ?G in Hp; try discriminate Hp.
+  - rewrite (Hget eq_refl). exact K.
+  - destruct (coll e c); discriminate Hp.
+  - destruct out; cbn; rewrite K; reflexivity.
+  - destruct out as [v| | | |]; cbn; try exact K.
+  - destruct out as [v| | | |]; cbn; try exact K.
+  - destruct out as [v| | | |]; cbn; try exact K. destruct v as [| |n]; cbn; exact K.
+Qed.
+
+Lemma judge_C06_get ms prev t co :
+  judge_C06 ms prev t AKeyGet co = true -> co_ret co = RB (key_free (mt_key (ms t))).
+Proof.
+  unfold judge_C06. intros H. apply andb_true_iff in H. destruct H as [H _]. apply andb_true_iff in H. destruct H as [H _].
+  destruct (co_ret co); try discriminate H. apply eqb_prop in H. now subst.
+Qed.
+
+Lemma qinv_ext sc h ms ms' : (forall x, ms' x = ms x) -> qinv sc h ms -> qinv sc h ms'.
+Proof.
+  intros E Q. constructor.
+  - apply (qi_stop _ _ _ Q). - apply (qi_quiet _ _ _ Q). - apply (qi_wf _ _ _ Q). - apply (qi_cnt _ _ _ Q).
+  - intros t m items G. rewrite E. apply (qi_guard _ _ _ Q t m items G).
+  - intros t l R H. rewrite E. apply (qi_holds _ _ _ Q t l R H).
+  - intros t. rewrite E. apply (qi_leak _ _ _ Q).
+  - intros x. rewrite E. apply (qi_J _ _ _ Q).
+Qed.
+
+Lemma key_back_nostop o rc : key_back o rc = true -> stop_code rc = false.
+Proof. destruct o as [| | |c m fl| | | | | | | | |]; try destruct fl; destruct rc; cbn; congruence. Qed.
+
+Lemma key_back_skipped o : key_back o RSkipped = false.
+Proof. destruct o as [| | |c m fl| | | | | | | | |]; try destruct fl; reflexivity. Qed.
+
+Lemma nonacq_not_acquire o : is_nonacq o = true -> is_acquire o = false.
+Proof. destruct o; cbn; congruence. Qed.
+
+Lemma raw_after_nonacq sc t lc o rc f : is_nonacq o = true -> raw_after sc t lc o rc f = f.
+Proof. destruct o; cbn; try discriminate; reflexivity. Qed.
+
+Lemma classify_TA o rc c m : classify o rc = TA c m ->
+  got_guard o rc = true /\ exists f, o = AAcquire c m f.
+Proof.
+  destruct o as [| | |c' m' fl| | | | | | | | |]; cbn; try discriminate.
+  destruct fl; try discriminate; destruct rc; try discriminate; intros H; inversion H; subst;
+    (split; [reflexivity|eexists; reflexivity]).
+Qed.
+
+Lemma classify_TF o rc : classify o rc = TF -> o = AGuardForget.
+Proof. destruct o as [| | |c m fl| | | | | | | | |]; cbn; try discriminate; try reflexivity. destruct fl, rc; discriminate. Qed.
+
+Lemma leaked_nil sc mt : mt_leak mt = [] -> leaked sc mt = [].
+Proof. unfold leaked. now intros ->. Qed.
+
+Lemma is_nil_true {A} (l : list A) : is_nil l = true -> l = [].
+Proof. destruct l; [reflexivity|discriminate]. Qed.
+
+Lemma qstep sc nl np h ms t o :
+  wf_hist sc -> qinv sc h ms -> In (t, o) (sc_hist sc) ->
+  exists h' co, hstep (sc_env sc) nl np h (t, o) = (h', [co]) /\ co_tid co = t /\
+    judge_C03 ms (snapshot_holds nl (h_w h)) t o co = true /\
+    judge_C17 ms (snapshot_holds nl (h_w h)) t o co = true /\
+    co_holds co = snapshot_holds nl (h_w h') /\
+    h_stop h' = stop_code (co_ret co) /\
+    (stop_code (co_ret co) = false -> qinv sc h' (upd ms t (track (ms t) o (co_ret co)))).
+Proof.
+  intros W Q Hin.
+  pose proof (real_in _ _ _ Hin) as Rt.
+  destruct (step_C06 (sc_env sc) nl np h ms t o (snapshot_holds nl (h_w h)) (qi_stop _ _ _ Q) (qi_J _ _ _ Q))
+    as [h' [co [St [Ht [Hj [Hs' HJ']]]]]].
+  exists h', co. split; [exact St|]. split; [exact Ht|].
+  destruct (api_prog (sc_env sc) (h_loc h t) o) as [p|] eqn:Hp.
+  - destruct (run nopw t p (clear_trace (h_w h))) as [out w'] eqn:Rn.
+    rewrite (hstep_some _ nl np h t o p out w' (qi_stop _ _ _ Q) Hp Rn) in St.
+    inversion St; subst h' co. clear St. cbn [co_ret co_evs co_holds h_w h_stop h_loc co_tid] in *.
+    set (lc := h_loc h t) in *. set (rc := snd (api_fin (sc_env sc) lc o out)) in *.
+    set (lc' := fst (api_fin (sc_env sc) lc o out)) in *.
+    set (w := clear_trace (h_w h)) in *.
+    pose proof (call_Q sc t lc o p w out w' (quiet_clear _ (qi_quiet _ _ _ Q)) (wh_fuel _ W)
+                  (qinv_guard_ok _ _ _ t Q) (wf_hist_coll_ok _ _ _ W Hin) Hp Rn) as CO.
+    destruct (qi_J _ _ _ Q t) as [_ HRk]. fold lc in HRk.
+    assert (Hnone : haskey lc = true -> forall l, holds_by t (w_raw (h_w h) l) = false).
+    { intros Hk. apply (haskey_holds_nothing sc h ms t Q Rt Hk). }
+    (* the invariant after the call *)
+    assert (Qnew : stop_code rc = false ->
+                   qinv sc (mkh w' (upd (h_loc h) t lc') (stops rc)) (upd ms t (track (ms t) o rc))).
+    { intros Hsc.
+      pose proof (trans_classify (sc_env sc) lc (ms t) o p out Hp HRk Hsc) as TS. fold rc lc' in TS.
+      assert (D' : dinv sc (w_raw w') (upd (h_loc h) t lc') (upd ms t (track (ms t) o rc))).
+      { apply (dinv_step sc (w_raw (h_w h)) (h_loc h) ms t lc' (track (ms t) o rc) (classify o rc) (w_raw w')
+                 (qinv_dinv _ _ _ Q) Rt TS).
+        - intros x. rewrite (cq_raw _ _ _ _ _ _ _ CO Hsc x). fold rc. rewrite raw_after_classify. reflexivity.
+        - intros c m Hk. destruct (classify_TA _ _ _ _ Hk) as [GG [f Ho]]. split.
+          + apply (cq_can _ _ _ _ _ _ _ CO c m f Ho GG).
+          + subst o. destruct (wh_colls _ W t c m f Hin) as [s [Hn [_ ND]]]. unfold shape_of. now rewrite Hn.
+        - exact Hnone. }
+      constructor; cbn [h_w h_loc h_stop].
+      - rewrite stops_stop_code. exact Hsc.
+      - apply (cq_quiet _ _ _ _ _ _ _ CO Hsc).
+      - apply (di_wf _ _ _ _ D').
+      - apply (di_cnt _ _ _ _ D').
+      - apply (di_guard _ _ _ _ D').
+      - apply (di_holds _ _ _ _ D').
+      - intros u Hl. destruct (Nat.eq_dec u t) as [->|Hu]; [|rewrite upd_other in Hl |- * by exact Hu; now apply (qi_leak _ _ _ Q)].
+        rewrite upd_same in Hl |- *.
+        destruct (classify o rc) eqn:K; cbn [trans_spec] in TS.
+        + destruct TS as [_ [_ ML]]. rewrite ML in Hl.
+          apply (leak_key_step _ _ _ _ _ _ Hp HRk (qi_leak _ _ _ Q t Hl)).
+          intros ->. pose proof (judge_C06_get _ _ _ _ Hj) as X. cbn [co_ret] in X. fold lc rc in X. fold rc.
+          rewrite X, (qi_leak _ _ _ Q t Hl). reflexivity.
+        + destruct TS as [Hk [_ [_ [_ ML]]]]. rewrite ML in Hl. exfalso.
+          pose proof (qi_leak _ _ _ Q t Hl) as KL. destruct (Rk_leaked _ _ HRk KL). congruence.
+        + destruct TS as [_ [_ ML]]. rewrite ML in Hl.
+          apply (leak_key_step _ _ _ _ _ _ Hp HRk (qi_leak _ _ _ Q t Hl)).
+          intros ->. discriminate K.
+        + destruct TS as [G _]. pose proof (classify_TF _ _ K) as Ho. subst o. clear K.
+          cbn [api_prog] in Hp. fold lc in Hp. destruct (guard lc) eqn:Gl; [|congruence].
+          assert (MG : mt_guard (ms t) <> None).
+          { unfold Rk in HRk. rewrite Gl in HRk. destruct (haskey lc); [contradiction|]. apply HRk. }
+          destruct (mt_guard (ms t)) eqn:E; [|congruence].
+          unfold rc in *. destruct out; cbn in Hsc |- *; try discriminate Hsc; rewrite E; reflexivity.
+      - exact (HJ' Hsc). }
+    split; [|split; [|split; [reflexivity|split; [exact Hs'|exact Qnew]]]].
+    + (* judge_C03 *)
+      unfold judge_C03. cbn [co_ret co_holds co_evs]. fold lc rc.
+      apply andb_true_iff. split; [apply andb_true_iff; split|].
+      * destruct (is_acquire o) eqn:IA; [|reflexivity]. destruct (negb (rcode_eqb rc RSkipped)); [|reflexivity].
+        cbn [andb]. destruct o; try discriminate IA. rewrite thread_holds_false; [reflexivity|].
+        apply Hnone. eapply acq_haskey. exact Hp.
+      * destruct (key_back o rc) eqn:KB; [|reflexivity].
+        destruct (is_nil (mt_leak (ms t))) eqn:NL; [|reflexivity]. cbn [negb andb].
+        pose proof (key_back_nostop _ _ KB) as Hsc. specialize (Qnew Hsc).
+        pose proof (trans_classify (sc_env sc) lc (ms t) o p out Hp HRk Hsc) as TS. fold rc lc' in TS.
+        apply is_nil_true in NL.
+        assert (G' : guard lc' = None /\ mt_leak (track (ms t) o rc) = []).
+        { destruct (classify o rc) eqn:K; cbn [trans_spec] in TS.
+          - destruct TS as [G [_ ML]]. split; [|congruence]. rewrite G.
+            destruct o as [| | |c m fl| | | | | | | | |]; try discriminate KB; try discriminate K.
+            apply (Rk_key_noguard _ _ HRk). eapply acq_haskey. exact Hp.
+          - exfalso. destruct (classify_TA _ _ _ _ K) as [GG [f ->]]. destruct f, rc; discriminate.
+          - destruct TS as [G [_ ML]]. split; congruence.
+          - rewrite (classify_TF _ _ K) in KB. discriminate KB. }
+        destruct G' as [G' ML'].
+        rewrite thread_holds_false; [reflexivity|]. intros l.
+        destruct (holds_by t (w_raw w' l)) eqn:E; [|reflexivity]. exfalso.
+        destruct (qi_holds _ _ _ Qnew t l Rt E) as [X|X]; cbn [h_loc] in X; rewrite upd_same in X.
+        -- unfold ghold in X. rewrite G' in X. exact X.
+        -- rewrite (leaked_nil _ _ ML') in X. exact X.
+      * destruct rc eqn:Erc; try reflexivity. destruct (last_blocked (rev (w_trace w'))) as [l|]; [|reflexivity].
+        assert (IA : is_acquire o = true) by (apply (cq_stop _ _ _ _ _ _ _ CO); fold rc; rewrite Erc; reflexivity).
+        destruct o; try discriminate IA. rewrite nth_snapshot_not_held; [reflexivity|].
+        apply Hnone. eapply acq_haskey. exact Hp.
+    + (* judge_C17 *)
+      unfold judge_C17. cbn [co_ret co_holds co_evs]. fold lc rc.
+      destruct (is_nonacq o) eqn:NA; [|reflexivity].
+      destruct (run_nonblocking nopw t p (nonacq_nb _ _ _ _ NA Hp) w out w' Rn) as [Hnb [evs [T F]]].
+      assert (Hsc : stop_code rc = false).
+      { destruct (stop_code rc) eqn:E; [|reflexivity].
+        pose proof (cq_stop _ _ _ _ _ _ _ CO E) as IA. rewrite (nonacq_not_acquire _ NA) in IA. discriminate. }
+      apply andb_true_iff. split; [apply andb_true_iff; split|].
+      * unfold w in T. cbn [clear_trace w_trace] in T. rewrite app_nil_r in T. rewrite T.
+        apply nb_evs_bool. now apply Forall_rev.
+      * destruct rc eqn:Erc; try reflexivity. exfalso. apply Hnb. eapply nonacq_not_blocked; eauto.
+      * rewrite (snapshot_holds_ext nl w' (h_w h)); [apply holds_sim_refl|].
+        intros x. rewrite (cq_raw _ _ _ _ _ _ _ CO Hsc x). fold rc. now rewrite raw_after_nonacq.
+  - (* the call is not possible in this user state *)
+    rewrite (hstep_none _ nl np h t o (qi_stop _ _ _ Q) Hp) in St. inversion St; subst h' co. clear St.
+    cbn [co_ret co_evs co_holds].
+    split; [|split; [|split; [reflexivity|split; [exact Hs'|]]]].
+    + unfold judge_C03. cbn [co_ret co_holds co_evs]. rewrite key_back_skipped.
+      destruct (is_acquire o); reflexivity.
+    + unfold judge_C17. cbn [co_ret co_holds co_evs]. destruct (is_nonacq o); [|reflexivity].
+      cbn. apply holds_sim_refl.
+    + intros _. apply (qinv_ext sc h ms); [|exact Q]. intros x. rewrite track_skipped.
+      destruct (Nat.eq_dec x t) as [->|Hx]; [now rewrite upd_same|now rewrite upd_other].
+Qed.
+
+(* ---------------------------------------------------------------- whole histories *)
+Definition jsel (b : bool) := if b then judge_C03 else judge_C17.
+
+Lemma mfold_hist sc (b : bool) :
+  wf_hist sc ->
+  forall hist, (forall x, In x hist -> In x (sc_hist sc)) ->
+  forall h ms, qinv sc h ms ->
+  mfold (jsel b) ms (snapshot_holds (sc_nlocks sc) (h_w h)) hist
+        (snd (hrun (sc_env sc) (sc_nlocks sc) (sc_npids sc) h hist)) = true.
+Proof.
+  intros W. induction hist as [|[t o] r IH]; intros Hsub h ms Q; [reflexivity|].
+  destruct (qstep sc (sc_nlocks sc) (sc_npids sc) h ms t o W Q (Hsub _ (or_introl eq_refl)))
+    as [h' [co [St [Ht [J3 [J17 [Hh [Hs' Q']]]]]]]].
+  rewrite (hrun_cons _ _ _ h (t, o) r h' [co] St). cbn [app mfold].
+  rewrite Ht, Nat.eqb_refl. cbn [andb].
+  assert (Jb : jsel b ms (snapshot_holds (sc_nlocks sc) (h_w h)) t o co = true) by (destruct b; assumption).
+  rewrite Jb. cbn [andb].
+  destruct (stop_code (co_ret co)) eqn:Sc; [reflexivity|].
+  rewrite Hh. apply IH; [|now apply Q'].
+  intros x Hx. apply Hsub. now right.
+Qed.
+
+(* C03 and C17, for EVERY fault-free history of any number of threads over any collections: the monitors that
+   the check evaluates on the implementation hold of the model *)
+Theorem C03_all_histories sc : wf_hist sc -> mon_C03 sc (model_obs sc) = true.
+Proof.
+  intros W. unfold mon_C03, run_monitor, model_obs, pre_holds.
+  apply (mfold_hist sc true W (sc_hist sc) (fun x H => H) _ _ (qinv_init sc W)).
+Qed.
+
+Theorem C17_all_histories sc : wf_hist sc -> mon_C17 sc (model_obs sc) = true.
+Proof.
+  intros W. unfold mon_C17, run_monitor, model_obs, pre_holds.
+  apply (mfold_hist sc false W (sc_hist sc) (fun x H => H) _ _ (qinv_init sc W)).
+Qed.
+
+(* ---------------------------------------------------------------- the hypotheses are decidable *)
+Fixpoint ndb (l : list nat) : bool :=
+  match l with [] => true | x :: r => negb (memb x r) && ndb r end.
+
+Lemma ndb_NoDup l : ndb l = true -> NoDup l.
+Proof.
+  induction l as [|x r IH]; simpl; intros H; [constructor|].
+  apply andb_true_iff in H. destruct H as [H1 H2]. constructor; [|now apply IH].
+  intros Hin. apply memb_In in Hin. rewrite Hin in H1. discriminate.
+Qed.
+
+Definition wf_rawstb (s : rawst) : bool :=
+  match writer s with None => true | Some _ => is_nil (readers s) end.
+
+Lemma wf_rawstb_ok s : wf_rawstb s = true -> wf_rawst s.
+Proof.
+  unfold wf_rawstb, wf_rawst. destruct (writer s); intros H Hw; [|congruence]. destruct (readers s); [reflexivity|discriminate].
+Qed.
+
+Definition wf_histb (sc : scen) : bool :=
+  is_nil (sc_f1 sc) && is_nil (sc_fp sc) && Nat.leb 2 (sc_fuel sc) &&
+  forallb (fun x : tid * apiop =>
+             match snd x with
+             | AAcquire c _ _ => match nth_error (sc_colls sc) c with
+                                 | Some s => acquirable s && ndb (leaves s)
+                                 | None => false
+                                 end
+             | _ => true
+             end) (sc_hist sc) &&
+  forallb (fun x : lock * rawst =>
+             wf_rawstb (snd x) && forallb (fun t => negb (holds_by t (snd x))) (threads_of (sc_hist sc))) (sc_pre sc).
+
+Definition pre_raw (pre : list (lock * rawst)) : St :=
+  fold_right (fun (x : lock * rawst) f => upd f (fst x) (snd x)) (fun _ => raw_free) pre.
+
+Lemma pre_raw_cases (pre : list (lock * rawst)) l :
+  pre_raw pre l = raw_free \/ exists k, In (k, pre_raw pre l) pre.
+Proof.
+  induction pre as [|[k s] r IH]; cbn [pre_raw fold_right fst snd]; [now left|]. fold (pre_raw r).
+  destruct (Nat.eqb_spec l k) as [->|Hn].
+  - rewrite upd_same. right. exists k. now left.
+  - rewrite upd_other by exact Hn. destruct IH as [IH|[k' IH]]; [now left|]. right. exists k'. now right.
+Qed.
+
+Lemma wf_histb_ok sc : wf_histb sc = true -> wf_hist sc.
+Proof.
+  unfold wf_histb. intros H. repeat (apply andb_true_iff in H; destruct H as [H ?]).
+  rename H into F1, H3 into FP, H2 into FU, H1 into HC, H0 into HP.
+  rewrite forallb_forall in HC, HP.
+  constructor.
+  - now apply is_nil_true.
+  - now apply is_nil_true.
+  - now apply Nat.leb_le.
+  - intros t c m f Hin. specialize (HC _ Hin). cbn [snd] in HC.
+    destruct (nth_error (sc_colls sc) c) as [s|]; [|discriminate]. exists s. split; [reflexivity|].
+    apply andb_true_iff in HC. destruct HC as [Ha Hn]. split; [exact Ha|now apply ndb_NoDup].
+  - intros l. unfold sc_world. cbn [w_raw]. fold (pre_raw (sc_pre sc)).
+    destruct (pre_raw_cases (sc_pre sc) l) as [E|[k Hin]].
+    + rewrite E. intros _. reflexivity.
+    + specialize (HP _ Hin). cbn [snd] in HP. apply andb_true_iff in HP. now apply wf_rawstb_ok.
+  - intros t l Rt. unfold sc_world. cbn [w_raw]. fold (pre_raw (sc_pre sc)).
+    destruct (pre_raw_cases (sc_pre sc) l) as [E|[k Hin]].
+    + rewrite E. reflexivity.
+    + specialize (HP _ Hin). cbn [snd] in HP. apply andb_true_iff in HP. destruct HP as [_ HP].
+      rewrite forallb_forall in HP. specialize (HP t Rt). now apply negb_true_iff in HP.
+Qed.
+
+Corollary C03_all_histories_dec sc : wf_histb sc = true -> mon_C03 sc (model_obs sc) = true.
+Proof. intros H. apply C03_all_histories. now apply wf_histb_ok. Qed.
+Corollary C17_all_histories_dec sc : wf_histb sc = true -> mon_C17 sc (model_obs sc) = true.
+Proof. intros H. apply C17_all_histories. now apply wf_histb_ok. Qed.
